@@ -46,6 +46,7 @@ func init() {
 			{ID: "C02.R25", Text: "what a session asks the server and the store is answered by them, not by a layer in between (a cache of sequence numbers or fail-over logs, a retry with a fallback): every layer over a module interface is a proven pass-through and no collaborator is replaced by a wrapper (same rules as C20.R19 and C20.R20)", Run: func(c *Ctx, id string) { decoratorsTransparent()(c, id); noNewLayers(c, id) }},
 			{ID: "C02.R26", Text: "the auto-reset and stream modes a session is opened under are the configured ones: outside package config the configuration is only read (same rule as C17.R6)", Run: configImmutable},
 			{ID: "C02.R27", Text: "the position requested from the server is the stored one, not one edited on the way: no in-place store to an Offset or SnapshotMarker field (same rules as C06.R3 and C01.R7)", Run: func(c *Ctx, id string) { c06r3(c, id); immutableOffsets(c, id) }},
+			{ID: "C02.R28", Text: "each vBucket is requested with its own persisted values: nothing process-wide is shared between documents — no package-level variable is written after initialisation (same rule as C18.R9)", Run: globalsFrozen},
 			{ID: "C02.R6", Text: "read-only wrapper: Save/Clear perform no call and return nil, Load forwards its parameters; Start wraps the metadata whenever Metadata.ReadOnly and under no other condition", Run: c02r6},
 		},
 	})
